@@ -145,24 +145,13 @@ def check_parse(res, raw, tag, rep):
 
 def check_protocol(res, raw, tag, rep):
     """the same bytes through BasicDBusProtocol.dataReceived"""
-    from txdbus import protocol as P
-    from mcx import fakes
+    from mcx.checks import c04
     res.count('evaluations')
     res.count('transitions')
-
-    class Rec(P.BasicDBusProtocol):
-        def __init__(self):
-            self.got = 0
-
-        def methodCallReceived(self, m):
-            self.got += 1
-        methodReturnReceived = errorReceived = signalReceived = \
-            methodCallReceived
-
-    p = Rec()
-    p.transport = fakes.FakeTransport()
-    p._receivedFDs = []
-    p._authenticated = True
+    # a real server-side protocol brought into binary mode by a real
+    # handshake (no private attribute is touched)
+    p, _t = c04.make_server()
+    p.dataReceived(c04.SERVER_HS)
     with core.Watchdog(60):
         try:
             st, v, n = meter.metered(lambda: p.dataReceived(raw),
@@ -177,7 +166,8 @@ def check_protocol(res, raw, tag, rep):
     elif st == 'exc' and isinstance(v, MemoryError):
         res.violation('%s/memory-protocol/%s' % (PROP, tag),
                       'dataReceived raised MemoryError', rep, size=len(raw))
-    res.outcome(('proto', st, type(v).__name__ if st == 'exc' else p.got))
+    res.outcome(('proto', st, type(v).__name__ if st == 'exc'
+                 else len(p.got)))
 
 
 SUBS = [0x00, 0x01, 0x7f, 0x80, 0xff] + [ord(c) for c in 'a(){}vysg']
